@@ -29,6 +29,99 @@ theorem fact_writer_has_no_map_range : Facts.C10.writerMapRanges = [] := by deci
 /-- `applyFrom` reads the conflicted flag whether or not a base event exists (the model does) -/
 theorem fact_conflicted_flag_read_unconditionally : Facts.C10.conflictedFlagReadUnconditional = true := by decide
 
+/-- `event.before` compares the clock, then the signing time (at full precision, `time.Time.Before`), then the ref —
+    exactly the model's `before` -/
+theorem fact_before_order : Facts.C10.beforeSteps = ["e.Clock < other.Clock => true", "e.Clock > other.Clock => false", "e.SigningTime.Before(other.SigningTime) => true", "other.SigningTime.Before(e.SigningTime) => false", "return e.Ref.Compare(other.Ref) < 0"] := by decide
+
+/-- two events are the same event iff their refs are equal (the model's `contains`) -/
+theorem fact_equal_by_ref : Facts.C10.equalBody = "{ return e.Ref.Equals(other.Ref) }" := by decide
+
+/-- everything the ordering and the re-application read from a stored event survives the JSON round trip of the event
+    list: each of these fields is persisted under its own tag (only the in-memory `document` pointer is not) -/
+theorem fact_event_fields_persisted :
+    (∀ f ∈ ["SigningTime", "Clock", "Previous", "Ref", "PayloadHash", "MetaRef"],
+      ∃ p ∈ Facts.C10.eventFields, p.1 = f ∧ p.2 ≠ "" ∧ p.2 ≠ "-") ∧
+    (Facts.C10.eventFields.map (·.2)).Nodup ∧
+    (∀ p ∈ Facts.C10.eventFields, p.2 = "" → p.1 = "document") := by decide
+
+/-- every field of the stored metadata record is persisted under its own tag -/
+theorem fact_metadata_fields_persisted :
+    (∀ f ∈ ["Version", "Created", "Updated", "Hash", "PreviousHash", "PreviousTransaction", "SourceTransactions", "Deactivated"],
+      ∃ p ∈ Facts.C10.metadataFields, p.1 = f ∧ p.2 ≠ "" ∧ p.2 ≠ "-") ∧
+    (Facts.C10.metadataFields.map (·.2)).Nodup := by decide
+
+/-- the store object's only in-memory state is the conflicted cache (`Store.cache` in the model; everything else is
+    read from the database on every call, which is why a restart only needs `reload`) -/
+theorem fact_store_in_memory_state : Facts.C10.storeFields = ["db", "storageProvider", "conflictedDocuments"] := by decide
+
+/-- the cache is written by `applyFrom` (add / remove) and `loadConflictedDocuments` (called from `Configure`) and read
+    by `Conflicted` only — the model's `add`, `reload`, `conflictedOf` -/
+theorem fact_cache_touch : Facts.C10.cacheTouch = ["Configure calls loadConflictedDocuments", "Conflicted uses conflictedDocuments", "addCachedConflict uses conflictedDocuments", "applyFrom calls addCachedConflict", "applyFrom calls removeCachedConflict", "loadConflictedDocuments uses conflictedDocuments", "removeCachedConflict uses conflictedDocuments"] := by decide
+
+/-- metadata records are keyed DID+version, event `i` of the list points at version `i`, `latest` points at
+    DID+version and `Resolve` walks down by `version - 1`: the model's chain indexed by position -/
+theorem fact_version_keys : Facts.C10.sprintfKeys = ["Resolve: \"%s%d\" <- id.String() <- metadata.Version - 1", "applyEvent: \"%s%d\" <- nextDocument.ID.String() <- nextMetadata.Version", "writeEventList: \"%s%d\" <- id.String() <- i", "writeLatest: \"%s%d\" <- id <- metadata.Version"] := by decide
+
+/-- single conditions the model copies -/
+theorem fact_copied_conditions :
+    Facts.C10.docCountCondition = "if metadata.Version == 0" ∧
+    Facts.C10.deactivatedAssign = "newMeta.Deactivated = newMeta.Deactivated || currentMeta.Deactivated" ∧
+    Facts.C10.isDeactivatedBody = "return len(document.Controller) == 0 && len(document.CapabilityInvocation) == 0" ∧
+    Facts.C10.isConflictedBody = "return len(md.SourceTransactions) > 1" ∧
+    Facts.C10.updatedOnlyIfDifferent = "if !md.Created.Equal(md.Updated) ;; result.Updated = &md.Updated" ∧
+    Facts.C10.historyCreated = "created := el.Events[0].SigningTime" ∧
+    Facts.C10.containsCheck = "if currentEventList.contains(event(transaction))" ∧
+    Facts.C10.configureLoadsCache = "err = tl.loadConflictedDocuments()" := by decide
+
+/-- the functions the model mirrors are textually the ones it was written against (normalised body digests);
+    an edit to any of them fails here and sends the check looking for a concrete counterexample -/
+theorem fact_modelled_source_unchanged : Facts.C10.modelledSourceDigests = [("event.go:before", "44e604635a93"),
+    ("event.go:equal", "81163d70626e"),
+    ("event.go:insert", "780be3f5eb32"),
+    ("event.go:contains", "00bf01dec6b7"),
+    ("writer.go:writeEventList", "02f6c11d75c9"),
+    ("writer.go:writeDocument", "8958ffca45fc"),
+    ("writer.go:writeLatest", "2207627fe06c"),
+    ("writer.go:applyFrom", "dd594f34f3ed"),
+    ("writer.go:incrementDocumentCount", "020ddd19a1ab"),
+    ("writer.go:applyEvent", "5b9a524d3cd2"),
+    ("writer.go:applyDocument", "bbccdf46d835"),
+    ("writer.go:isDeactivated", "16f5db687650"),
+    ("store.go:Configure", "293639ec0083"),
+    ("store.go:Add", "f210e605bb68"),
+    ("store.go:Resolve", "c8dce706bfc5"),
+    ("store.go:Iterate", "ecd063ae3999"),
+    ("store.go:loadConflictedDocuments", "c4a69f8179e5"),
+    ("store.go:addCachedConflict", "568d12f58f5a"),
+    ("store.go:removeCachedConflict", "0f654d40bfc3"),
+    ("store.go:Conflicted", "2daf2fa6b38a"),
+    ("store.go:ConflictedCount", "ab64cad9e09b"),
+    ("store.go:DocumentCount", "e93a38d17291"),
+    ("store.go:matches", "4307695c3584"),
+    ("store.go:latestNonDeactivatedRequested", "193ad311e17e"),
+    ("store.go:HistorySinceVersion", "21543445d03f"),
+    ("reader.go:readDocument", "2c56abc1cbf7"),
+    ("reader.go:readDocumentFromEvent", "6a5e7201b731"),
+    ("reader.go:readMetadata", "716a8c6d9c59"),
+    ("reader.go:readEventList", "0ac85a79cbbf"),
+    ("metadata.go:asVDRMetadata", "c8353707e29f"),
+    ("metadata.go:isConflicted", "26646ea99411"),
+    ("merge.go:mergeDocuments", "1c4a7dff6449"),
+    ("merge.go:mergeBasics", "1df844d1a025"),
+    ("merge.go:mergeKeys", "a33bf08e3b1a"),
+    ("merge.go:mergeControllers", "789cf91fb91b"),
+    ("merge.go:mergeServices", "2bbd8aef8775"),
+    ("merge.go:verificationMethodSort", "dc460a455299"),
+    ("merge.go:keyAgreementSort", "66afa15cd134"),
+    ("merge.go:assertionSort", "ef0d7e37783b"),
+    ("merge.go:authenticationSort", "ac5c817389d6"),
+    ("merge.go:capabilityInvocationSort", "4def980e52a4"),
+    ("merge.go:capabilityDelegationSort", "b57d2ee295a3"),
+    ("merge.go:controllerSort", "18db2dc296c6"),
+    ("merge.go:serviceSort", "a0ad392477a0"),
+    ("merge.go:contextSort", "a4fe7d831316"),
+    ("finder.go:Find", "21d9d4d04ce6")] := by decide
+
 /-! ### `before` is a strict total order on events with distinct refs -/
 
 theorem before_strict_total :
